@@ -77,7 +77,7 @@ class Jail:
         # only/ is granted at the top and not below sub/, deep/ the other way round: a verdict computed for the wrong
         # directory shows as a write no rule grants
         for d in ("out", "secret", "askme", "sub", "sub/out", "sub/sub", "sub/sub/out", "only", "sub/only", "deep", "sub/deep",
-                  "sub/sub/only", "sub/sub/deep"):
+                  "sub/sub/only", "sub/sub/deep", "~"):
             os.makedirs(os.path.join(self.cwd, d), exist_ok=True)
         with open(os.path.join(self.cwd, "f"), "w") as f:
             f.write("data\n")
